@@ -119,6 +119,7 @@ let rec parse_val (toks : string list) : val0 * string list =
       | _ -> failwith "bad class" end
     else if t = "l[" then
       let (items, rest') = parse_until "]" rest in (VList (fresh_id (), items), rest')
+    else if t = "tnil" then (VTuple [], rest)
     else if t = "t(" then
       let (items, rest') = parse_until ")" rest in (VTuple items, rest')
     else if t = "m{" || t = "d{" then begin
@@ -197,6 +198,7 @@ let rec parse_rval (toks : string list) : rval * string list =
     else if starts t "U:" then
       (* harness type UserObj{Tag int}: an ordinary struct with one exported field *)
       (RStruct [sfield "Tag" true "" (RInt (z_of_dec (after t "U:")))], rest)
+    else if t = "tnil" then (RTuple [], rest)
     else if t = "t(" then let (l, r) = parse_rvals ")" rest in (RTuple l, r)
     else if t = "l[" || t = "ar[" || t = "ts[" then let (l, r) = parse_rvals "]" rest in (RList l, r)
     else if t = "m{" || t = "tm{" || t = "d{" then begin
@@ -398,6 +400,49 @@ let run_reenc (proto : string) (pd : string) (su : string) (hex : string) : stri
         | EOk -> "ok " ^ hex_of_blist (List.concat ws)
         | _ -> "encfail")
      | _ -> "NA")
+  | _ -> "NA"
+
+(* C05 with maps (Props/C05.v, C05_redecode_with_maps): decode, reflect the result through the heap
+   with every map iterated in the REVERSE of the stored order (one witness of ReflectFacts.reflects
+   that differs from insertion order), norm2 of that reflection, printed like a decoded value.
+   NA: decode failed, the result is cyclic / too deep, or norm2 is undefined at this protocol *)
+let reflect_rev (h : heap) (v : val0) : rval option =
+  let exception Stop in
+  let rec go (d : int) (x : val0) : rval =
+    if d > 60 then raise Stop;
+    match reify x with
+    | Some r -> r
+    | None ->
+      (match x with
+       | VList (_, l) -> RList (List.map (go (d + 1)) l)
+       | VTuple l -> RTuple (List.map (go (d + 1)) l)
+       | VCall (m, n, l) -> RCall (m, n, List.map (go (d + 1)) l)
+       | VMap id ->
+         (match heap_get h id with
+          | Some (HMap es) -> RMap (List.rev_map (fun (k, w) -> (go (d + 1) k, go (d + 1) w)) es)
+          | _ -> raise Stop)
+       | VDict id ->
+         (match heap_get h id with
+          | Some (HDict es) -> RDict (List.rev_map (fun (k, w) -> (go (d + 1) k, go (d + 1) w)) es)
+          | _ -> raise Stop)
+       | _ -> raise Stop) in
+  try Some (go 0 v) with Stop -> None
+
+let run_reenc2 (proto : string) (pd : string) (su : string) (hex : string) : string =
+  let ecfg = { e_proto = z_of_dec proto; e_strict = (su = "1"); e_isprint = is_print_hi; e_fmtg = fmt_g } in
+  let dcfg = { c_pydict = (pd = "1"); c_strict = (su = "1"); c_load = None } in
+  match decode dcfg init_state (bytes_of_hex hex) with
+  | ((Ok v, st1), _) ->
+    (match reflect_rev st1.d_heap v with
+     | None -> "NA"
+     | Some r ->
+       (match norm2 ecfg (pd = "1") (fun t -> TRef t) r with
+        | None -> "NA"
+        | Some cvl ->
+          let (x, h) = materialise cvl in
+          (match dump_val_capped h x with
+           | None -> "ok TOOBIG"
+           | Some d -> "ok " ^ string_of_bytes d)))
   | _ -> "NA"
 
 (* C12: the instruction list of Encode's output: per instruction  asmhex:iproto:delta:need
@@ -726,6 +771,7 @@ let handle (line : string) : string =
   | "prog" :: proto :: su :: rest -> run_prog proto su rest
   | "pyload" :: proto :: su :: rest -> run_pyload proto su rest
   | "reenc" :: proto :: pd :: su :: rest -> run_reenc proto pd su (match rest with [h] -> h | _ -> "")
+  | "reenc2" :: proto :: pd :: su :: rest -> run_reenc2 proto pd su (match rest with [h] -> h | _ -> "")
   | "dict" :: rest -> run_dict rest
   | "lookup" :: n :: rest -> run_lookup n rest
   | "declong" :: rest ->
